@@ -482,6 +482,7 @@ def r15_lower_for(src, body_open_byte=0):
         if not (st[i + 1].kind == 'id' and st[i + 2].kind == 'id' and st[i + 2].text == 'in'):
             continue
         x = st[i + 1].text
+        by_value = False
         j = i + 3
         e0 = j
         while j < len(st) and not (st[j].kind == 'p' and st[j].text == '{'):
@@ -497,10 +498,14 @@ def r15_lower_for(src, body_open_byte=0):
             e_text = src[expr_toks[0].start:expr_toks[-5].end]
         elif expr_toks and expr_toks[0].kind == 'p' and expr_toks[0].text == '&' and not (len(expr_toks) > 1 and expr_toks[1].text == 'mut'):
             e_text = src[expr_toks[1].start:expr_toks[-1].end]
+        elif expr_toks and not any(u.kind == 'p' and u.text == '.' and u.end < len(src) and src[u.end] == '.' for u in expr_toks):
+            # plain `for x in E` over a Vec / &Vec (not a range `a..b`): iterate by reference over the value moved into a local (R19)
+            e_text = src[expr_toks[0].start:expr_toks[-1].end]
+            by_value = True
         else:
             continue
         hdr_old = src[t.start:st[bo].end]
-        hdr_new = (f'{{ let __v{k} = &{e_text}; let mut __i{k}: usize = 0; while __i{k} < __v{k}.len() {{'
+        hdr_new = (f'{{ let __v{k} = {"" if by_value else "&"}{e_text}; let mut __i{k}: usize = 0; while __i{k} < __v{k}.len() {{'
                    f' let {x} = &__v{k}[__i{k}]; __i{k} = __i{k} + 1;')
         edits.append((t.start, st[bo].end, _keep_newlines(hdr_old, hdr_new)))
         edits.append((st[bc].end, st[bc].end, ' }'))
